@@ -227,6 +227,9 @@ func genRanges(t *rapid.T, offers []string, max int) []Range {
 		if genEmptyElements {
 			r.Empty = rapid.SampledFrom([]int{0, 0, 0, 1, 2}).Draw(t, "empty")
 		}
+		if i == 0 || r.NL {
+			r.Blank = rapid.SampledFrom([]int{0, 0, 0, 0, 1, 2}).Draw(t, "blank")
+		}
 		// equal weights make the specificity and offer-order rules decide
 		if i > 0 && r.HasQ && rs[0].HasQ && rapid.IntRange(0, 2).Draw(t, "sameq") == 0 {
 			keep := r.Q
